@@ -290,6 +290,18 @@ def rule_sensors(cx, rid):
     ip = meths.get("is_pressed")
     if ip is None:
         raise AnalysisError("Button.is_pressed vanished")
+    # who may write: the previous *sample* belongs to the sampling method - nothing else re-arms or disarms the edge
+    # detector (a release that no poll ever saw must not produce a click); the raw level belongs to set_pressed
+    WRITERS = {"_was_pressed": {"__init__", "is_pressed"}, "_pressed": {"__init__", "set_pressed"}, "_on_click": {"__init__"}, "_state_provider": {"__init__"}}
+    helper_of_is_pressed = {c.func.attr for c in ast.walk(ip) if isinstance(c, ast.Call) and isinstance(c.func, ast.Attribute) and norm(c.func.value) == "self"}
+    for name, f in meths.items():
+        for n in walk_local(f):
+            if isinstance(n, (ast.Assign, ast.AugAssign, ast.AnnAssign)):
+                for t in (n.targets if isinstance(n, ast.Assign) else [n.target]):
+                    for x in ast.walk(t):
+                        if isinstance(x, ast.Attribute) and norm(x.value) == "self" and isinstance(x.ctx, ast.Store) and x.attr in WRITERS:
+                            ok_w = name in WRITERS[x.attr] or (x.attr == "_was_pressed" and name in helper_of_is_pressed)
+                            r.check(ok_w, f"Button.{name}/writes[{x.attr}]", (btn, n), f"`{stmt_key(n)}` in Button.{name}(): {x.attr} may only be written by {sorted(WRITERS[x.attr])}; the edge detector compares consecutive *samples*, so state changes between two polls must not touch it", sample=f"Button.{name} writes {x.attr}")
     # summarise provider calls of helper methods / properties
     def provider_weight_fn(depth=0):
         summ = {}
